@@ -519,7 +519,9 @@ func (vr *variableResolver) resolve(ctx *ExecutionContext) (*Value, error) {
 				return nil, fmt.Errorf("error calling '%s': %w", vr.String(), err)
 			}
 			rv := values[0]
-			if t.NumOut() == 2 {
+			if t.NumOut() == 2 && !isNilResult(values[1]) {
+				// (a nil pointer of a concrete error type is "no error", like a nil error: boxed
+				// into an interface it would compare unequal to nil)
 				e := values[1].Interface()
 				if e != nil {
 					err, ok := e.(error)
@@ -551,6 +553,16 @@ func (vr *variableResolver) resolve(ctx *ExecutionContext) (*Value, error) {
 	}
 
 	return &Value{val: current, safe: isSafe}, nil
+}
+
+// isNilResult reports whether a function result is a nil pointer, interface, map,
+// slice, func or channel.
+func isNilResult(v reflect.Value) bool {
+	switch v.Kind() {
+	case reflect.Ptr, reflect.Interface, reflect.Map, reflect.Slice, reflect.Func, reflect.Chan:
+		return v.IsNil()
+	}
+	return false
 }
 
 // safeCall calls fn and turns a panic of the called code into an error (as
